@@ -24,7 +24,7 @@ pub fn scenarios() -> Vec<Scenario> {
             name: "c04-grammar",
             gen,
             run,
-            quick_runs: 150_000,
+            quick_runs: 2_000_000,
             weight: 3,
             rule: "case = complete frame: reference encoding of a valid packet in a legal spelling, optionally with 1-3 byte-level corruptions; non-trivial when the packet has >= 1 optional field or the frame is corrupted; distinct by case hash",
         },
@@ -33,7 +33,7 @@ pub fn scenarios() -> Vec<Scenario> {
             name: "c04-malformed",
             gen: gen_mal,
             run: run_mal,
-            quick_runs: 15_000,
+            quick_runs: 200_000,
             weight: 2,
             rule: "case = valid packet; every applicable catalogue malformation at every applicable site is judged by the reference grammar and by the poll decoder; non-trivial when >= 3 malformations applied; distinct by case hash",
         },
